@@ -92,6 +92,12 @@ TEXT = {
             "evaluated by TLC on long real runs (3000-20000 frames) of all topologies, all-local sessions, never-drained "
             "sessions and dying spectators; the link model's history bound is an invariant of MC_Link.",
             "DESIGN.md section 3 C18"),
+    "C15": ("The recommendation gate is a state-machine predicate on every drained WaitRecommendation; TimeSync.tla "
+            "transcribes the window arithmetic and TLC validates records of the real window against it; the closed loop "
+            "(two peers, constant lead k in -7..7, latency 0..100 ms, fps 30/60) is executed on real sessions under the "
+            "virtual clock and TLA+ predicates compare frames_ahead with the real lead, the two peers' values with each "
+            "other, ping with 2L and the local/remote frames-behind figures.  Numeric accuracy is at the edge of the "
+            "technique: 'about' is formalised as +-2 frames / two ticks on the explored grid.", "DESIGN.md section 3 C15"),
 }
 
 NOTE = ("Trusted: TLC 1.8.0 + CommunityModules, the harness projection (world.rs) and virtual clock shim, the "
